@@ -29,23 +29,23 @@ def run(ctx):
     quick = ctx.tier == "quick"
     rng = random.Random(ctx.seed * 31337 + 6)
     feat = dict(pools=0.7, console=0.15, chain=0.5, order_only=0.4, vals=0.3, restat=0.2)
-    items = sched.small_scenarios(ctx, "C06", 1200 if quick else 25000, rng, size=(2, 6), cap=250 if quick else 3000, feat=feat,
+    items = sched.small_scenarios(ctx, "C06", 1200 if quick else 8000, rng, size=(2, 6), cap=250 if quick else 600, feat=feat,
                                   with_history=0.3)
-    items += sched.small_scenarios(ctx, "C06", 500 if quick else 10000, rng, size=(2, 6), cap=150 if quick else 2000, feat=feat,
+    items += sched.small_scenarios(ctx, "C06", 500 if quick else 3000, rng, size=(2, 6), cap=150 if quick else 400, feat=feat,
                                    faults=True, with_history=0.2, salt=1)
-    items += sched.small_scenarios(ctx, "C06", 700 if quick else 15000, rng, size=(2, 6), cap=150 if quick else 2000, feat=feat,
+    items += sched.small_scenarios(ctx, "C06", 700 if quick else 5000, rng, size=(2, 6), cap=150 if quick else 400, feat=feat,
                                    jobserver=1.0, with_history=0.2, salt=2)
-    items += sched.small_scenarios(ctx, "C06", 400 if quick else 8000, rng, size=(2, 6), cap=100 if quick else 1000, feat=feat,
+    items += sched.small_scenarios(ctx, "C06", 400 if quick else 3000, rng, size=(2, 6), cap=100 if quick else 250, feat=feat,
                                    jobserver=1.0, faults=True, with_history=0.2, salt=3)
     # load-limited capacity (-l): the room left under the load limit fluctuates from call to call, down to nothing while
     # commands run; many phony statements so that ready work items are not all commands
-    lim = sched.small_scenarios(ctx, "C06", 500 if quick else 10000, rng, size=(2, 7), cap=80 if quick else 800,
+    lim = sched.small_scenarios(ctx, "C06", 500 if quick else 3500, rng, size=(2, 7), cap=80 if quick else 200,
                                 feat=dict(pools=0.4, chain=0.6, order_only=0.4, phony=0.4, restat=0.15, dyndep=0.1), with_history=0.2, salt=4)
     for scn, info in lim:
         ex = scn["steps"][info["explore_step"]]
         ex["load_caps"] = [rng.choice((0, 0, 1, 1, 2, 3, 8)) for _ in range(rng.randint(1, 7))]
     items += lim
-    items += sched.special_c06(ctx, rng, 300 if quick else 5000)
+    items += sched.special_c06(ctx, rng, 300 if quick else 2000)
     sched.run_explore(ctx, "C06", items)
     try:
         from .. import e2e
